@@ -83,7 +83,20 @@ P8 == Program(<<Raw(<<"a := 1">>), Raw(<<"b := 2">>),
                 Raw(<<"print x m (len [(a<b)and(b>a)])">>),
                 Raw(<<"if (a<b)and(b>a)">>), Raw(<<"    print \"y\" (a==b)or(a!=b)">>), Raw(<<"end">>),
                 Raw(<<"for i := range (len [(a<b)or(b<a) true])">>), Raw(<<"    print i (i>0)and(i<2)">>), Raw(<<"end">>)>>, <<>>, <<>>)
-Progs == << Seed(NoIns), Seed2, P3, P4, P5, P6, P7, P8 >>
+\* multi-line literals in which every line break follows a comment, literals that hold only comments, operators
+\* inside map values and array elements (tight), raw carriage returns and tabs inside strings and comments
+P9 == Program(<<Raw(<<"a := 1">>),
+                Raw(<<"box := [10 // left">>), Raw(<<"    20 // top">>), Raw(<<"]">>),
+                Raw(<<"pts := [ // corners">>), Raw(<<"    a+1 // first">>), Raw(<<"    a*2 // second">>), Raw(<<"]">>),
+                Raw(<<"none := [ // nothing yet">>), Raw(<<"    // really nothing">>), Raw(<<"]">>),
+                Raw(<<"m := {x:a+1 y:a*2 z:-a}">>),
+                Raw(<<"mm := {k:1 // one">>), Raw(<<"    j:a-1 // two">>), Raw(<<"}">>),
+                Raw(<<"print box pts none m mm [a+1 a*2] (len none)">>),
+                Raw(<<"s := \"x\ry\tz\" // c\rd\te">>), Raw(<<"print s (len s)">>)>>, <<>>, <<>>)
+\* definitions that follow the top-level code (and each other) without an empty line: the formatter inserts the empty
+\* lines, whatever blank-line runs and comments the source has elsewhere
+NoSep(p) == [main |-> p.main, funcs |-> p.funcs, hs |-> p.hs, fl |-> p.fl, nb |-> TRUE]
+Progs == << Seed(NoIns), Seed2, P3, P4, P5, P6, P7, P8, P9, NoSep(Seed(NoIns)), NoSep(P5), NoSep([Seed(NoIns) EXCEPT !.fl = FALSE]) >>
 
 TDigit(code, i) == (code \div (7 ^ (i % 9))) % 7
 TailDigit(code) == (code \div 7) % 5
@@ -123,5 +136,7 @@ Source(pi, code, vi) == LET v == Variants[vi] IN JoinLines(WithTrivia(LProg(Prog
 Init == g \in {<<pi, c>> : pi \in DOMAIN Progs, c \in Codes}
 Next == FALSE /\ UNCHANGED g
 Emit == PrintT(ToJson([prog |-> g[1], code |-> g[2], hasFuncs |-> Len(Progs[g[1]].funcs) + Len(Progs[g[1]].hs) > 0,
-                       variants |-> [vi \in DOMAIN Variants |-> Source(g[1], g[2], vi)]]))
+                       \* P9's own lines end in comments: a second end-of-line comment from the trivia would be comment TEXT, whose
+                       \* blanks are not optional whitespace; P9 therefore comes in one layout
+                       variants |-> [vi \in (IF g[1] = 9 THEN {1} ELSE DOMAIN Variants) |-> Source(g[1], g[2], vi)]]))
 =============================================================================
